@@ -238,7 +238,7 @@ def calibrate(project, parset: ParameterSet, pars_to_adjust, output_quantities, 
     except Exception as e:
         raise e
     finally:
-        project.settings.sim_end = original_sim_end  # Restore the simulation end year
+        project.settings._sim_end = original_sim_end  # Restore the end year exactly (the sim_end setter would snap it onto start + k*dt again)
 
     _update_parset(args["parset"], x1, pars_to_adjust)
 
